@@ -76,6 +76,8 @@ func (s *Solver) Close() {
 }
 
 func (s *Solver) send(cmds string) []string {
+	t0 := time.Now()
+	defer func() { s.Time += time.Since(t0) }()
 	if s.Log != nil {
 		io.WriteString(s.Log, cmds)
 	}
@@ -101,6 +103,7 @@ func (s *Solver) send(cmds string) []string {
 		for _, l := range lines {
 			io.WriteString(s.Log, "; -> "+l+"\n")
 		}
+		fmt.Fprintf(s.Log, "; took %v\n", time.Since(t0))
 	}
 	return lines
 }
@@ -147,8 +150,6 @@ func (s *Solver) Assert(t *Term) {
 // When model is true and the result is Sat, the values of all declared variables are
 // returned.
 func (s *Solver) Check(extra *Term, model bool) (Result, map[string]uint64) {
-	t0 := time.Now()
-	defer func() { s.Time += time.Since(t0) }()
 	s.Queries++
 	var sb strings.Builder
 	var n string
